@@ -21,6 +21,8 @@ pub struct Ctl {
     /// the injected error has kind `Interrupted` (which `read_exact` / `write_all` retry) instead of `Other`
     /// 0 = kind Other, 1 = Interrupted, 2 = UnexpectedEof, 3 = a read that returns Ok(0) (seeks: UnexpectedEof)
     pub kind: AtomicU64,
+    /// C12: after a failed read, retry at once (no look-back seek), checking the position the handle reports
+    pub plain_retry: AtomicBool,
 }
 
 impl Ctl {
@@ -35,6 +37,7 @@ impl Ctl {
             small_buffer: AtomicBool::new(false),
             dirty: AtomicBool::new(false),
             kind: AtomicU64::new(0),
+            plain_retry: AtomicBool::new(false),
         })
     }
     fn hit(&self, is_read_side: bool) -> io::Result<()> {
@@ -246,6 +249,18 @@ fn read_workload(image: &[u8], streams: &[(String, Vec<u8>)], ctl: Arc<Ctl>, han
                         if !fired {
                             bad.push(format!("{} on {} failed ({}) although no fault was injected into it", op, path, k));
                         }
+                        // plain retry: the failed call has not moved the handle - its reported position is the
+                        // position of the last successful call, and the retry goes on from there
+                        if op == "read" && ctl.plain_retry.load(Ordering::SeqCst) {
+                            ctl.count_reads.store(false, Ordering::SeqCst);
+                            let pos = s.stream_position();
+                            ctl.count_reads.store(true, Ordering::SeqCst);
+                            match pos {
+                                Ok(p) if p as usize == cursor => {}
+                                Ok(p) => bad.push(format!("after a failed read of {} at position {} the handle reports position {}", path, cursor, p)),
+                                Err(_) => {}
+                            }
+                        } else
                         // look back: after the failed call the same handle must still serve the true
                         // bytes of what it had buffered before (not recorded in the transcript)
                         if op == "read" && cursor > 0 {
@@ -368,6 +383,26 @@ pub fn read_campaign(seed: u64, pairs: u64, ops_path: &str, impl_path: &str) {
             tr
         };
         for k in 0..n {
+            // the same position once more, the failed read retried at once (no look-back in between)
+            {
+                let ctl = Ctl::new(true, false);
+                ctl.fail_a.store(k, Ordering::SeqCst);
+                ctl.plain_retry.store(true, Ordering::SeqCst);
+                match catch(|| read_workload(&image, &streams, ctl.clone(), None)) {
+                    Err(m) => println!("ORACLE fault at underlying call {} (plain retry): panic: {}", k, &m[..m.len().min(120)]),
+                    Ok((t, bad)) => {
+                        for x in bad.iter().take(2) {
+                            println!("ORACLE fault at underlying call {} (failed read retried at once): {}", k, x);
+                        }
+                        let s = successes(&t);
+                        if t.iter().any(|l| l == "open ok") && s != good {
+                            let i = s.iter().zip(good.iter()).position(|(x, y)| x != y).unwrap_or(s.len().min(good.len()));
+                            println!("ORACLE fault at underlying call {} (failed read retried at once): result {} differs from the fault-free result: {:?} vs {:?}", k, i, s.get(i), good.get(i));
+                        }
+                    }
+                }
+                evaluations += 1;
+            }
             let tr = run(k, u64::MAX, true);
             evaluations += 1;
             if !tr.iter().any(|l| l.contains(" F ")) {
